@@ -131,11 +131,6 @@ theorem verdict_of_dict (root : String) (els els' : List Elem) (lv : Option Elem
 
 /-! ### what saving writes -/
 
-/-- the elements `to_dict` writes: the dictionary in insertion order — one entry per name, in the order
-    the names first appeared, each with the last value read for it -/
-def savedElems (els : List Elem) : List Elem :=
-  (els.map (·.name)).eraseDups.filterMap (lookup els)
-
 theorem nodup_eraseDups : ∀ (n : Nat) (l : List String), l.length ≤ n → l.eraseDups.Nodup := by
   intro n
   induction n with
